@@ -116,6 +116,10 @@ func rulesC03(c *Ctx) {
 
 	// ---- R7 view bases are separator-terminated -----------------------------------------
 	c.Floor("R7", ruleViewBaseSeparator(c, "R7", iface, impls), 4)
+	// ---- R12 only the disk backend talks to the host file system ----
+	c.Floor("R12", ruleHostOnlyFromDisk(c, "R12"), 10)
+	// ---- R11 a view's base is extended only by reduced parts ----
+	c.Floor("R11", ruleViewBaseJoin(c, "R11", iface, impls), 4)
 
 	// ---- R8 copies share no node with their source (the rest of the tree stays byte-identical) ----
 	ruleDeepCopyAs(c, "R8")
@@ -480,6 +484,85 @@ func viewConfinementRules(c *Ctx, iface *types.Interface, allImpls, targets []*t
 // ruleViewBaseSeparator: methods of a rebased view form paths as base+arg with
 // no separator of their own, so every value stored into a base-path field must
 // end with the separator constant.
+// viewBaseFields: the string fields of view type T that its methods put in front of
+// the (reduced) argument: left-most part of a rebased sink.
+func viewBaseFields(c *Ctx, iface *types.Interface, T *types.Named) (*types.Struct, map[int]bool) {
+	st, ok := T.Underlying().(*types.Struct)
+	if !ok {
+		return nil, nil
+	}
+	base := map[int]bool{}
+	for _, f := range c.P.MethodsOf(T, iface) {
+		if f.Blocks == nil {
+			continue
+		}
+		for _, u := range sinkUses(f) {
+			if len(u.Parts) < 2 || !isRebased(u) {
+				continue
+			}
+			for _, l := range u.Parts[0] {
+				if l.Origin.Kind != "field" {
+					continue
+				}
+				for i := 0; i < st.NumFields(); i++ {
+					if strings.HasSuffix(l.Origin.Name, "."+T.Obj().Name()+"."+refFieldName(lastSeg(typeString(T)), st.Field(i).Name())) && isStringy(st.Field(i).Type()) {
+						base[i] = true
+					}
+				}
+			}
+		}
+	}
+	return st, base
+}
+
+// ruleViewBaseJoin: where a view's base path is set, a caller-supplied part is appended to an
+// existing prefix (the parent view's base, a root) only after ReduceAbsPath accepted it.  A
+// base with no prefix (the constructor of a view over a whole filespace) is left to that
+// filespace's own reducer; but `parent.base + Clean(arg)` lets a ".." in arg consume the parent's
+// base once the underlying filespace reduces the joined path: the view leaves its parent.
+func ruleViewBaseJoin(c *Ctx, rule string, iface *types.Interface, impls []*types.Named) int {
+	n := 0
+	for _, T := range impls {
+		st, base := viewBaseFields(c, iface, T)
+		if len(base) == 0 {
+			continue
+		}
+		for _, f := range c.P.AllModuleFuncs() {
+			f := f
+			eachInstr(f, func(b *ssa.BasicBlock, _ int, in ssa.Instruction) {
+				s, ok := in.(*ssa.Store)
+				if !ok {
+					return
+				}
+				fa, ok := s.Addr.(*ssa.FieldAddr)
+				if !ok || !base[fa.Field] || structOf(fa.X.Type()) != st {
+					return
+				}
+				n++
+				facts := factsFor(f)
+				prefix, bad := false, ""
+				for _, part := range concatParts(resolve(s.Val), 0) {
+					for _, l := range classifyLeaves(f, facts, part, b) {
+						if !l.NonConst {
+							continue
+						}
+						if l.Param == nil {
+							prefix = true
+							continue
+						}
+						if l.State != "reduced" && prefix {
+							bad = fmt.Sprintf("parameter %s (%s) is appended to an existing base", l.Param.Name(), l.State)
+						}
+					}
+				}
+				c.Check(bad == "", rule, fmt.Sprintf("base path of %s joined in %s", implName(T), fname(f)), s.Pos(), "a part appended to an existing base passed ReduceAbsPath",
+					bad+" without the reducer having accepted it — a '..' in it consumes that base when the underlying filespace reduces the joined path: the view reaches nodes outside its parent view")
+			})
+		}
+	}
+	return n
+}
+
 func ruleViewBaseSeparator(c *Ctx, rule string, iface *types.Interface, impls []*types.Named) int {
 	n := 0
 	for _, T := range impls {
@@ -528,6 +611,62 @@ func ruleViewBaseSeparator(c *Ctx, rule string, iface *types.Interface, impls []
 				c.Check(okS, rule, fmt.Sprintf("base path of %s set in %s", implName(T), fname(f)), s.Pos(), "ends with the separator constant: "+renderTemplate(parts),
 					"the view's base path ("+renderTemplate(parts)+") does not end with the '/' its methods rely on when they form base+name — the view maps names onto sibling paths ('app/confnew.txt' for 'app/conf' + 'new.txt')")
 			})
+		}
+	}
+	return n
+}
+
+// hostPathExempt: functions of package os with a string parameter that do not touch the file system.
+var hostPathExempt = map[string]bool{
+	"os.Getenv": true, "os.Setenv": true, "os.Unsetenv": true, "os.LookupEnv": true, "os.ExpandEnv": true, "os.Expand": true,
+	"os.NewSyscallError": true, "os.IsPathSeparator": true, "os.NewFile": true,
+}
+
+// isHostPathPrimitive: a standard-library function that takes a path and touches the host file system.
+func isHostPathPrimitive(f *ssa.Function) bool {
+	if f == nil || f.Pkg == nil || f.Signature.Recv() != nil {
+		return false
+	}
+	q := qualName(f)
+	switch f.Pkg.Pkg.Path() {
+	case "os", "io/ioutil":
+		if hostPathExempt[q] {
+			return false
+		}
+		ps := f.Signature.Params()
+		for i := 0; i < ps.Len(); i++ {
+			if isStringy(ps.At(i).Type()) {
+				return true
+			}
+		}
+	case "path/filepath":
+		switch f.Name() {
+		case "Walk", "WalkDir", "Glob", "EvalSymlinks":
+			return true
+		}
+	}
+	return false
+}
+
+// ruleHostOnlyFromDisk (who-may-call): inside the filesystem packages only filesystem/disk and
+// filesystem/filespace/diskfs hand paths to the host.  There C03.R1/R4 show every such path to be
+// root + reduced argument; a host call anywhere else (a cache, a view, a helper taking a "fast
+// path" to the local disk) joins paths no rule has confined.
+func ruleHostOnlyFromDisk(c *Ctx, rule string) int {
+	n := 0
+	for _, f := range c.P.AllModuleFuncs() {
+		if f.Pkg == nil || !strings.HasPrefix(f.Pkg.Pkg.Path(), modPath+"/filesystem") {
+			continue
+		}
+		rel := strings.TrimPrefix(f.Pkg.Pkg.Path(), modPath+"/")
+		allowed := rel == diskPkg || rel == diskfsPkg
+		for _, ci := range Calls(f) {
+			if !isHostPathPrimitive(ci.Static) {
+				continue
+			}
+			n++
+			c.Check(allowed, rule, fmt.Sprintf("host call %s in %s", lastSeg(qualName(ci.Static)), fname(f)), ci.Pos(), "made by the disk backend (paths confined by R1/R4)",
+				"a path is handed to the host file system outside filesystem/disk and filesystem/filespace/diskfs — it bypasses the backend's reducer: a recorded path like '../x' is resolved against the host directory and leaves the filespace root")
 		}
 	}
 	return n
